@@ -134,7 +134,10 @@ theorem allDefs_op (t : Tag) (b : Basic) (x : Var) (h : x ∈ b.defs) : x ∈ al
   cases t <;> simp [allDefs, defsOf, h]
 
 theorem allDefs_seq (s t : Stmt) (x : Var) : x ∈ allDefs (.seq s t) ↔ x ∈ allDefs s ∨ x ∈ allDefs t := by
-  simp only [allDefs, defsOf, List.mem_append]; constructor <;> intro h <;> rcases h with (h | h) | h <;> (try rcases h with h | h) <;> simp [h]
+  simp only [allDefs, defsOf, List.mem_append]
+  constructor
+  · rintro (((h | h) | (h | h)) | (h | h)) <;> simp [h]
+  · rintro (((h | h) | h) | ((h | h) | h)) <;> simp [h]
 
 theorem allDefs_loop_body (cnt i : Var) (b : Stmt) (x : Var) (h : x ∈ allDefs b) : x ∈ allDefs (.loop cnt i b) := by
   simp only [allDefs, defsOf, List.mem_append] at h ⊢
@@ -173,9 +176,9 @@ theorem safeAfter_keeps (c : Ctx) (m : Mode) : ∀ (s : Stmt) (F : List Var) (v 
   | seq s t ihs iht =>
     intro F v h hn
     simp only [safeAfter]
-    have := (allDefs_seq s t v).not.mp hn
-    simp only [not_or] at this
-    exact iht _ v (ihs F v h this.1) this.2
+    have h1 : v ∉ allDefs s := fun h' => hn ((allDefs_seq s t v).mpr (Or.inl h'))
+    have h2 : v ∉ allDefs t := fun h' => hn ((allDefs_seq s t v).mpr (Or.inr h'))
+    exact iht _ v (ihs F v h h1) h2
   | loop cnt i b ih =>
     intro F v h hn
     simp only [safeAfter, List.mem_filter, Bool.and_eq_true, bne_iff_ne, ne_eq, Bool.not_eq_true', List.contains_eq_mem,
@@ -236,5 +239,129 @@ theorem exec_safe (I : Interp D) (args : Args D) (c : Ctx) (m : Mode) : ∀ (s :
             simp only [allDefs, List.mem_append, not_or]
             exact ⟨⟨hv.2.1.1.2, hv.2.1.2⟩, hv.2.2⟩
     · exact hF'
+
+
+/-! ## on a rerun every array object in scope is safe to hand out -/
+
+def SafeAll (c : Ctx) (st : St D) : Prop := ∀ v r, st.env v = some r → SafeRef c r
+
+theorem SafeAll.upd {c : Ctx} {st : St D} (h : SafeAll c st) (dst : Var) (r' : Ref) (h1 : SafeRef c r')
+    (env' : Var → Option Ref) (he : env' = fun x => if x = dst then some r' else st.env x) :
+    ∀ v r, env' v = some r → SafeRef c r := by
+  intro v r hr
+  rw [he] at hr; simp only at hr
+  split at hr
+  · cases hr; exact h1
+  · exact h v r hr
+
+theorem execB_safeAll (I : Interp D) (args : Args D) (c : Ctx) (b : Basic) (st : St D)
+    (hd : ∀ d ∈ b.defs, c.cloc (.var d) = false) (h : SafeAll c st) : SafeAll c (execB I args b st) := by
+  unfold execB
+  split
+  · exact h
+  · cases b with
+    | fresh dst op srcs =>
+      simp only
+      split
+      · exact h.upd dst _ (Or.inr (hd dst (by simp [Basic.defs]))) _ rfl
+      · exact h
+    | getarg dst a cop =>
+      simp only
+      split
+      · exact h
+      · split
+        · exact h.upd dst _ (Or.inr (hd dst (by simp [Basic.defs]))) _ rfl
+        · exact h.upd dst _ (Or.inr rfl) _ rfl
+    | view dst vop may src =>
+      simp only
+      split
+      · exact h
+      · next r0 hr0 =>
+        split
+        · exact h.upd dst _ (Or.inr (hd dst (by simp [Basic.defs]))) _ rfl
+        · refine h.upd dst ⟨r0.loc, vop :: r0.path, r0.w⟩ ?_ _ rfl
+          exact h src r0 hr0
+    | write dst op srcs =>
+      simp only
+      split
+      · split <;> exact h
+      · exact h
+    | setro v =>
+      simp only
+      split
+      · exact h.upd v _ (Or.inl rfl) _ rfl
+      · exact h
+    | guard op srcs =>
+      simp only
+      split
+      · split <;> exact h
+      · exact h
+    | clear => exact h
+
+theorem exec_rerun_safeAll (I : Interp D) (args : Args D) (c : Ctx) (k : Classes c) (s : Stmt) (st : St D)
+    (hs : wfK c s = true) (h : SafeAll c st) : SafeAll c (exec I args .rerun s st) := by
+  refine exec_preserves I args .rerun (SafeAll c) (fun s => wfK c s = true) ?_ ?_ ?_ ?_ ?_ s st hs h
+  · intro t b st' hq hr hP
+    have hq' : wfKop c t b = true := hq
+    apply execB_safeAll I args c b st' _ hP
+    intro d hd
+    cases t with
+    | skip => simp [runs] at hr
+    | shared =>
+      simp only [wfKop, Bool.and_eq_true, List.all_eq_true, List.contains_eq_mem, decide_eq_true_eq] at hq'
+      exact k.ncloc_of_sh (hq'.2.1 d hd)
+    | rerun =>
+      simp only [wfKop, Bool.and_eq_true, List.all_eq_true, List.contains_eq_mem, decide_eq_true_eq] at hq'
+      exact (nloc_ncloc (k.nloc_of_ns (hq'.2 d hd))).1
+  · intro cnt i body j st' hq hr hP
+    have hl := (wfK_loop c cnt i body hq).1
+    simp only [wfKloop, Bool.and_eq_true] at hl
+    unfold bindIdx; split
+    · exact hP
+    · refine hP.upd i _ (Or.inr ?_) _ rfl
+      cases ht : loopTag body with
+      | skip =>
+        have := (loopTag_skip ht).2
+        simp [loopRuns, this] at hr
+      | shared => rw [ht] at hl; exact k.ncloc_of_sh (by simpa using hl.2)
+      | rerun => rw [ht] at hl; exact (nloc_ncloc (k.nloc_of_ns (by simpa using hl.2))).1
+  · intro st' e hP; exact hP
+  · intro s t hq; exact wfK_seq c s t hq
+  · intro cnt i b hq; exact (wfK_loop c cnt i b hq).2
+
+/-- the array objects handed out are among the bindings of the returned variables -/
+theorem results_refs (I : Interp D) (st : St D) : ∀ (vs : List Var) (ds : List D) (rs : List Ref),
+    results I st vs = some (ds, rs) → ∀ r ∈ rs, ∃ v ∈ vs, st.env v = some r
+  | [], ds, rs, h, r, hr => by simp [results] at h; rw [h.2] at hr; cases hr
+  | v :: vs, ds, rs, h, r, hr => by
+    simp only [results] at h
+    cases hv : st.env v with
+    | none => simp [hv] at h
+    | some r0 =>
+      cases hrs : results I st vs with
+      | none => simp [hv, hrs] at h
+      | some x =>
+        obtain ⟨ds', rs'⟩ := x
+        simp only [hv, hrs, Option.some.injEq, Prod.mk.injEq] at h
+        rw [← h.2] at hr
+        simp only [List.mem_cons] at hr
+        rcases hr with hr | hr
+        · exact ⟨v, by simp, hr ▸ hv⟩
+        · obtain ⟨w, hw, he⟩ := results_refs I st vs ds' rs' hrs r hr
+          exact ⟨w, by simp [hw], he⟩
+
+theorem outcome_refs (I : Interp D) (p : Prog) (st : St D) (r : Ref) (h : r ∈ (outcome I p st).refs) :
+    st.err = none ∧ ∃ v ∈ p.ret, st.env v = some r := by
+  unfold outcome at h
+  cases he : st.err with
+  | some e => simp [he] at h
+  | none =>
+    simp only [he] at h
+    cases hr : results I st p.ret with
+    | none => simp [hr] at h
+    | some x =>
+      obtain ⟨ds, rs⟩ := x
+      simp only [hr] at h
+      exact ⟨rfl, results_refs I st p.ret ds rs hr r h⟩
 
 end NutilsVerif.C03
